@@ -6,8 +6,8 @@ Serial equivalence: the zone content is the fold of the committed transaction bo
 set_option linter.unusedSimpArgs false
 namespace Model.Writers
 
-/-- the thread's transaction changes the zone and commits -/
-def willCommit (c : Cfg) (t : Tid) : Bool := c.role t == .writer true
+/-- the thread's transaction changes the zone and its commit goes through (the pruning policy does not raise) -/
+def willCommit (c : Cfg) (t : Tid) : Bool := c.role t == .writer true && !c.pruneFails t
 
 /-- what a transaction starts from: the zone as of its admission, or nothing for `writer(replacement=True)` -/
 def baseOf (c : Cfg) (t : Tid) (zone : Content) : Content := if c.repl t then [] else zone
@@ -37,14 +37,23 @@ structure InvSer (c : Cfg) (s : State) : Prop where
   snapA : ∀ t, snapAPc (s.loc t).pc = true → (s.loc t).snap = baseOf c t s.nodes
   snapB : ∀ t, commitPc (s.loc t).pc = true → (s.loc t).snap = c.body t (baseOf c t s.nodes)
   vid : ∀ t, vidPc (s.loc t).pc = true → (s.loc t).vid = s.versions.length + 1
-  role : ∀ t, commitPc (s.loc t).pc = true → willCommit c t = true
-  versions : ∀ i v, s.versions[i]? = some v → v = (i + 1, applyTxns c ((admittedCommitters c s).take i))
+  role : ∀ t, commitPc (s.loc t).pc = true → c.role t = .writer true
+  /-- only a commit whose pruning went through reaches `self.nodes = version.nodes` -/
+  okC : ∀ t, (s.loc t).pc = .cNodes → c.pruneFails t = false
+  undoF : ∀ t, (s.loc t).pc = .cUndo → c.pruneFails t = true
+  /-- the published versions: the first `committed.length + 1` elements -/
+  versions : ∀ i v, i ≤ s.committed.length → s.versions[i]? = some v →
+    v = (i + 1, applyTxns c ((admittedCommitters c s).take i))
+  /-- the element appended by a commit in progress (it is withdrawn again if the pruning policy raises) -/
+  lastV : ∀ t, appendedPc (s.loc t).pc = true →
+    s.versions[s.committed.length + 1]? = some (s.committed.length + 2, c.body t (baseOf c t s.nodes))
   vlen : s.versions.length = s.committed.length + 1 + nAppended s
-  rver : ∀ t, readerHasPc (s.loc t).pc = true → (s.loc t).rver ∈ s.versions
+  /-- readers hold published versions only -/
+  rver : ∀ t, readerHasPc (s.loc t).pc = true → (s.loc t).rver ∈ s.versions.take (s.committed.length + 1)
 
 theorem invSer_init (c : Cfg) : InvSer c init := by
   constructor <;> simp [init, applyTxns, admittedCommitters, curCommitter, nAppended]
-  intro i v h
+  intro i v hi h
   cases i <;> simp_all
 
 variable {c : Cfg} {s s' : State} {t : Tid}
@@ -52,6 +61,7 @@ variable {c : Cfg} {s s' : State} {t : Tid}
 macro "ser_facts " s:ident hL:ident h:ident u:term : tactic =>
   `(tactic| (have := ($hL).lock $u; have := ($hL).own $u;
              have := ($h).snapA $u; have := ($h).snapB $u; have := ($h).vid $u; have := ($h).role $u;
+             have := ($h).okC $u; have := ($h).undoF $u; have := ($h).lastV $u; have := appendedPc_owner (State.loc $s $u).pc;
              have := snapAPc_owner (State.loc $s $u).pc; have := commitPc_owner (State.loc $s $u).pc;
              have := vidPc_owner (State.loc $s $u).pc))
 
@@ -59,8 +69,29 @@ macro "pres_ser " s:ident hL:ident h:ident t:ident u:ident old:term : tactic =>
   `(tactic| (by_cases hu : $u = $t <;>
     first
     | (subst hu; simp; done)
-    | (simp only [setLoc_loc, if_neg hu, setLoc_nodes, setLoc_versions]; exact $old)
+    | (simp only [setLoc_loc, if_neg hu, setLoc_nodes, setLoc_versions, setLoc_committed]; exact $old)
     | (ser_facts $s $hL $h $t; ser_facts $s $hL $h $u; (simp_all [willCommit, baseOf] <;> grind))))
+
+theorem own_ne_of_pc (hL : InvLock s) (hp : isOwner (s.loc t).pc = false) : s.writeTxn ≠ some t := by
+  intro h; have := (hL.own t).mpr h; simp [hp] at this
+
+theorem own_eq_of_pc (hL : InvLock s) (hp : isOwner (s.loc t).pc = true) : s.writeTxn = some t := (hL.own t).mp hp
+
+theorem nAppended_setLoc_ne {x : State} {t : Tid} (l : Local) (hne : x.writeTxn ≠ some t) :
+    nAppended (x.setLoc t l) = nAppended x := by
+  unfold nAppended
+  rcases hw : x.writeTxn with _ | u
+  · simp [hw]
+  · have : u ≠ t := by intro e; apply hne; rw [hw, e]
+    simp [hw, this]
+
+theorem nAppended_setLoc_self {x : State} {t : Tid} (l : Local) (hw : x.writeTxn = some t) :
+    nAppended (x.setLoc t l) = if appendedPc l.pc then 1 else 0 := by
+  simp [nAppended, hw]
+
+theorem nAppended_of_own {x : State} {t : Tid} (hw : x.writeTxn = some t) :
+    nAppended x = if appendedPc (x.loc t).pc then 1 else 0 := by
+  simp [nAppended, hw]
 
 theorem versions_ne_nil (h : InvSer c s) : s.versions ≠ [] := by
   intro e; have hl := h.vlen; rw [e] at hl; simp at hl; omega
@@ -75,14 +106,20 @@ theorem lastVersion_mem (h : InvSer c s) : s.lastVersion ∈ s.versions := by
   rw [getLastD_eq _ _ (versions_ne_nil h)]
   exact List.getLast_mem _
 
-theorem lastId_eq (h : InvSer c s) : s.lastId = s.versions.length := by
+/-- when no commit is in progress the newest version is the last published one and its id is the length -/
+theorem lastId_eq (h : InvSer c s) (h0 : nAppended s = 0) : s.lastId = s.versions.length := by
   have hne := versions_ne_nil h
   have hpos := List.length_pos_iff.mpr hne
+  have hl := h.vlen
   unfold State.lastId State.lastVersion
   rw [getLastD_eq _ _ hne, List.getLast_eq_getElem]
   have hi : s.versions[s.versions.length - 1]? = some (s.versions[s.versions.length - 1]'(by omega)) := by simp
-  rw [h.versions _ _ hi]
+  rw [h.versions _ _ (by omega) hi]
   simp; omega
+
+theorem take_all_of_idle (h : InvSer c s) (h0 : nAppended s = 0) : s.versions.take (s.committed.length + 1) = s.versions := by
+  have hl := h.vlen
+  exact List.take_of_length_le (by omega)
 
 set_option maxHeartbeats 1000000 in
 theorem snapA_step (hL : InvLock s) (h : InvSer c s) (htr : Trans c s t s') :
@@ -97,13 +134,29 @@ theorem snapB_step (hL : InvLock s) (h : InvSer c s) (htr : Trans c s t s') :
 set_option maxHeartbeats 1000000 in
 theorem vid_step (hL : InvLock s) (h : InvSer c s) (htr : Trans c s t s') :
     ∀ u, vidPc (s'.loc u).pc = true → (s'.loc u).vid = s'.versions.length + 1 := by
-  have := lastId_eq h
-  cases htr <;> intro u <;> pres_ser s hL h t u (h.vid u)
+  cases htr
+  case wSetupId hpc =>
+    intro u
+    have hw := own_eq_of_pc hL (t := t) (by simp [hpc])
+    have hn : nAppended s = 0 := by simp [nAppended, hw, hpc]
+    have := lastId_eq h hn
+    pres_ser s hL h t u (h.vid u)
+  all_goals (intro u; pres_ser s hL h t u (h.vid u))
 
 set_option maxHeartbeats 1000000 in
 theorem role_step (hL : InvLock s) (h : InvSer c s) (htr : Trans c s t s') :
-    ∀ u, commitPc (s'.loc u).pc = true → willCommit c u = true := by
+    ∀ u, commitPc (s'.loc u).pc = true → c.role u = .writer true := by
   cases htr <;> intro u <;> pres_ser s hL h t u (h.role u)
+
+set_option maxHeartbeats 1000000 in
+theorem undoF_step (hL : InvLock s) (h : InvSer c s) (htr : Trans c s t s') :
+    ∀ u, (s'.loc u).pc = .cUndo → c.pruneFails u = true := by
+  cases htr <;> intro u <;> pres_ser s hL h t u (h.undoF u)
+
+set_option maxHeartbeats 1000000 in
+theorem okC_step (hL : InvLock s) (h : InvSer c s) (htr : Trans c s t s') :
+    ∀ u, (s'.loc u).pc = .cNodes → c.pruneFails u = false := by
+  cases htr <;> intro u <;> pres_ser s hL h t u (h.okC u)
 
 theorem applyTxns_snoc (c : Cfg) (ts : List Tid) (t : Tid) :
     applyTxns c (ts ++ [t]) = c.body t (baseOf c t (applyTxns c ts)) := by
@@ -133,11 +186,6 @@ theorem curCommitter_of_own {x : State} {t : Tid} (hw : x.writeTxn = some t) :
     curCommitter c x = if willCommit c t && preCommitPc (x.loc t).pc then [t] else [] := by
   simp [curCommitter, hw]
 
-theorem own_ne_of_pc (hL : InvLock s) (hp : isOwner (s.loc t).pc = false) : s.writeTxn ≠ some t := by
-  intro h; have := (hL.own t).mpr h; simp [hp] at this
-
-theorem own_eq_of_pc (hL : InvLock s) (hp : isOwner (s.loc t).pc = true) : s.writeTxn = some t := (hL.own t).mp hp
-
 set_option maxHeartbeats 1000000 in
 theorem ac_step (hL : InvLock s) (h : InvSer c s) (htr : Trans c s t s') :
     admittedCommitters c s' = s'.committed ++ curCommitter c s' := by
@@ -155,15 +203,29 @@ theorem ac_step (hL : InvLock s) (h : InvSer c s) (htr : Trans c s t s') :
       exact own_ne_of_pc hL (by simp [hpc])
   -- the owner moves along, still before publishing (or never publishing)
   case wClrEv hpc | wRelA hpc | wSetupId hpc | wSetupCopy hpc | wReturn hpc | wBodyC hpc _ | cAcq hpc _ | cAppend hpc
-      | cPrune hpc | rAcq hpc _ =>
+      | cPrune hpc _ | rAcq hpc _ =>
     have hw := own_eq_of_pc hL (t := t) (by simp [hpc])
     rw [curCommitter_of_own hw] at h0
     rw [curCommitter_setLoc_self]
     · simpa [hpc] using h0
     · exact hw
+  case cPruneFail hpc hf =>
+    have hw := own_eq_of_pc hL (t := t) (by simp [hpc])
+    have : willCommit c t = false := by simp [willCommit, hf]
+    rw [curCommitter_of_own hw] at h0
+    rw [curCommitter_setLoc_self]
+    · simpa [hpc, this] using h0
+    · exact hw
+  case cUndo hpc =>
+    have hw := own_eq_of_pc hL (t := t) (by simp [hpc])
+    have : willCommit c t = false := by simp [willCommit, h.undoF t hpc]
+    rw [curCommitter_of_own hw] at h0
+    rw [curCommitter_setLoc_self]
+    · simpa [hpc, this] using h0
+    · exact hw
   case wBodyR hpc hr =>
     have hw := own_eq_of_pc hL (t := t) (by simp [hpc])
-    have : willCommit c t = false := by simpa [willCommit] using hr
+    have : willCommit c t = false := by simp [willCommit]; intro h; exact absurd h hr
     rw [curCommitter_of_own hw] at h0
     rw [curCommitter_setLoc_self]
     · simpa [hpc, this] using h0
@@ -175,7 +237,7 @@ theorem ac_step (hL : InvLock s) (h : InvSer c s) (htr : Trans c s t s') :
     cases hc : willCommit c t <;> simp_all [List.filter_append]
   case cNodes hpc =>
     have hw := own_eq_of_pc hL (t := t) (by simp [hpc])
-    have hr := h.role t (by simp [hpc])
+    have hr : willCommit c t = true := by simp [willCommit, h.role t (by simp [hpc]), h.okC t hpc]
     rw [curCommitter_of_own hw] at h0
     rw [curCommitter_setLoc_self]
     · simpa [hpc, hr] using h0
@@ -186,22 +248,6 @@ theorem ac_step (hL : InvLock s) (h : InvSer c s) (htr : Trans c s t s') :
     rw [curCommitter_setLoc_ne]
     · simpa [hpc, curCommitter] using h0
     · simp
-
-theorem nAppended_setLoc_ne {x : State} {t : Tid} (l : Local) (hne : x.writeTxn ≠ some t) :
-    nAppended (x.setLoc t l) = nAppended x := by
-  unfold nAppended
-  rcases hw : x.writeTxn with _ | u
-  · simp [hw]
-  · have : u ≠ t := by intro e; apply hne; rw [hw, e]
-    simp [hw, this]
-
-theorem nAppended_setLoc_self {x : State} {t : Tid} (l : Local) (hw : x.writeTxn = some t) :
-    nAppended (x.setLoc t l) = if appendedPc l.pc then 1 else 0 := by
-  simp [nAppended, hw]
-
-theorem nAppended_of_own {x : State} {t : Tid} (hw : x.writeTxn = some t) :
-    nAppended x = if appendedPc (x.loc t).pc then 1 else 0 := by
-  simp [nAppended, hw]
 
 set_option maxHeartbeats 1000000 in
 theorem vlen_step (hL : InvLock s) (h : InvSer c s) (htr : Trans c s t s') :
@@ -217,7 +263,7 @@ theorem vlen_step (hL : InvLock s) (h : InvSer c s) (htr : Trans c s t s') :
     · show s.writeTxn ≠ some t
       exact own_ne_of_pc hL (by simp [hpc])
   case wClrEv hpc | wRelA hpc | wSetupId hpc | wSetupCopy hpc | wReturn hpc | wBodyC hpc _ | wBodyR hpc _ | cAcq hpc _
-      | cAppend hpc | cPrune hpc | cNodes hpc | rAcq hpc _ =>
+      | cAppend hpc | cPrune hpc _ | cPruneFail hpc _ | cNodes hpc | cUndo hpc | rAcq hpc _ =>
     have hw := own_eq_of_pc hL (t := t) (by simp [hpc])
     rw [nAppended_of_own hw] at h0
     rw [nAppended_setLoc_self]
@@ -237,49 +283,136 @@ theorem vlen_step (hL : InvLock s) (h : InvSer c s) (htr : Trans c s t s') :
 
 set_option maxHeartbeats 1000000 in
 theorem versions_step (hL : InvLock s) (h : InvSer c s) (htr : Trans c s t s') :
-    ∀ i v, s'.versions[i]? = some v → v = (i + 1, applyTxns c ((admittedCommitters c s').take i)) := by
+    ∀ i v, i ≤ s'.committed.length → s'.versions[i]? = some v →
+      v = (i + 1, applyTxns c ((admittedCommitters c s').take i)) := by
   have h0 := h.versions
+  have hlen := h.vlen
   unfold admittedCommitters at h0 ⊢
-  cases htr <;> simp only [setLoc_versions, setLoc_admitted] <;> try exact h0
+  cases htr <;> simp only [setLoc_versions, setLoc_admitted, setLoc_committed] <;> try exact h0
   case wMkTxn hpc =>
-    intro i v hi
+    intro i v hic hi
     have hw := hL.mkTxn t hpc
-    have hlen := h.vlen
     have hac := h.ac
-    simp only [nAppended, curCommitter, admittedCommitters, hw] at hlen hac
-    have hi' : i < s.versions.length := by
-      rcases Nat.lt_or_ge i s.versions.length with h1 | h1
-      · exact h1
-      · rw [List.getElem?_eq_none h1] at hi; cases hi
-    rw [h0 i v hi, List.filter_append, List.take_append_of_le_length]
+    simp only [curCommitter, admittedCommitters, hw] at hac
+    rw [h0 i v hic hi, List.filter_append, List.take_append_of_le_length]
     rw [hac]; simp; omega
   case cAppend hpc =>
-    intro i v hi
+    intro i v hic hi
+    rw [List.getElem?_append_left (by omega)] at hi
+    exact h0 i v hic hi
+  case cUndo hpc =>
+    intro i v hic hi
     have hw := own_eq_of_pc hL (t := t) (by simp [hpc])
-    have hlen := h.vlen
-    have hac := h.ac
     rw [nAppended_of_own hw] at hlen
-    rw [curCommitter_of_own hw] at hac
-    have hr := h.role t (by simp [hpc])
-    simp only [hpc, hr, admittedCommitters] at hlen hac
-    simp at hlen hac
-    rcases Nat.lt_or_ge i s.versions.length with h1 | h1
-    · rw [List.getElem?_append_left h1] at hi
-      exact h0 i v hi
-    · rcases Nat.eq_or_lt_of_le h1 with h2 | h2
-      · subst h2
-        simp at hi
-        subst hi
-        rw [h.vid t (by simp [hpc]), h.snapB t (by simp [hpc]), h.nodes, hac, hlen]
-        rw [List.take_of_length_le (by simp), applyTxns_snoc]
-      · rw [List.getElem?_eq_none (by simp; omega)] at hi; cases hi
+    simp [hpc] at hlen
+    rw [List.getElem?_dropLast, if_pos (by omega)] at hi
+    exact h0 i v hic hi
+  case cNodes hpc =>
+    intro i v hic hi
+    rw [List.length_append, List.length_singleton] at hic
+    rcases Nat.lt_or_ge i (s.committed.length + 1) with h1 | h1
+    · exact h0 i v (by omega) hi
+    · have hie : i = s.committed.length + 1 := by omega
+      subst hie
+      have hw := own_eq_of_pc hL (t := t) (by simp [hpc])
+      have hl := h.lastV t (by simp [hpc])
+      rw [hl] at hi
+      have hac := h.ac
+      rw [curCommitter_of_own hw] at hac
+      have hr : willCommit c t = true := by simp [willCommit, h.role t (by simp [hpc]), h.okC t hpc]
+      simp only [hpc, hr, admittedCommitters] at hac
+      simp at hac
+      rw [← Option.some.inj hi, hac, h.nodes]
+      rw [List.take_of_length_le (by simp), applyTxns_snoc]
 
 set_option maxHeartbeats 1000000 in
-theorem rver_step (h : InvSer c s) (htr : Trans c s t s') :
-    ∀ u, readerHasPc (s'.loc u).pc = true → (s'.loc u).rver ∈ s'.versions := by
-  have hm := lastVersion_mem h
-  cases htr <;> intro u <;> have hu0 := h.rver u <;> have ht0 := h.rver t <;>
-    by_cases hu : u = t <;> simp_all <;> grind
+theorem lastV_step (hL : InvLock s) (h : InvSer c s) (htr : Trans c s t s') :
+    ∀ u, appendedPc (s'.loc u).pc = true →
+      s'.versions[s'.committed.length + 1]? = some (s'.committed.length + 2, c.body u (baseOf c u s'.nodes)) := by
+  cases htr
+  case cAppend hpc =>
+    intro u
+    have hw := own_eq_of_pc hL (t := t) (by simp [hpc])
+    have hlen := h.vlen
+    rw [nAppended_of_own hw] at hlen
+    simp [hpc] at hlen
+    by_cases hu : u = t
+    · subst hu
+      intro _
+      simp only [setLoc_versions, setLoc_committed, setLoc_nodes]
+      rw [List.getElem?_append_right (by omega)]
+      simp [hlen, h.vid u (by simp [hpc]), h.snapB u (by simp [hpc])]
+    · intro hp
+      simp only [setLoc_loc, if_neg hu] at hp
+      have := (hL.own u).mp (appendedPc_owner _ hp)
+      rw [hw] at this
+      exact absurd (Option.some.inj this).symm hu
+  all_goals (intro u; pres_ser s hL h t u (h.lastV u))
+
+theorem mem_take_succ {α} {l : List α} {x : α} {k : Nat} (h : x ∈ l.take k) : x ∈ l.take (k + 1) := by
+  rw [List.take_add_one]
+  exact List.mem_append_left _ h
+
+set_option maxHeartbeats 1000000 in
+theorem rver_step (hL : InvLock s) (h : InvSer c s) (htr : Trans c s t s') :
+    ∀ u, readerHasPc (s'.loc u).pc = true → (s'.loc u).rver ∈ s'.versions.take (s'.committed.length + 1) := by
+  have hlen := h.vlen
+  cases htr
+  case rdPick hpc =>
+    intro u
+    by_cases hu : u = t
+    · subst hu
+      intro _
+      have hl := (hL.lock u).mp (by simp [hpc])
+      have hn : nAppended s = 0 := by
+        unfold nAppended
+        rcases hw : s.writeTxn with _ | v
+        · rfl
+        · simp only
+          by_cases hv : appendedPc (s.loc v).pc = true
+          · exfalso
+            have h1 : holdsLock (s.loc v).pc = true := by
+              revert hv; cases (s.loc v).pc <;> simp
+            have := (hL.lock v).mp h1
+            rw [hl] at this
+            have hvu : u = v := Option.some.inj this
+            rw [← hvu, hpc] at hv; cases hv
+          · simp [hv]
+      simp only [setLoc_loc, if_true, setLoc_versions, setLoc_committed]
+      rw [take_all_of_idle h hn]
+      exact lastVersion_mem h
+    · intro hp
+      simp only [setLoc_loc, if_neg hu] at hp ⊢
+      exact h.rver u hp
+  case cAppend hpc =>
+    intro u hp
+    have hut : u ≠ t := by intro e; subst e; simp at hp
+    simp only [setLoc_loc, if_neg hut, setLoc_versions, setLoc_committed] at hp ⊢
+    rw [List.take_append_of_le_length (by omega)]
+    exact h.rver u hp
+  case cUndo hpc =>
+    intro u hp
+    have hut : u ≠ t := by intro e; subst e; simp at hp
+    have hw := own_eq_of_pc hL (t := t) (by simp [hpc])
+    rw [nAppended_of_own hw] at hlen
+    simp [hpc] at hlen
+    simp only [setLoc_loc, if_neg hut, setLoc_versions, setLoc_committed] at hp ⊢
+    have : s.versions.dropLast.take (s.committed.length + 1) = s.versions.take (s.committed.length + 1) := by
+      rw [List.dropLast_eq_take, List.take_take]
+      congr 1; omega
+    rw [this]
+    exact h.rver u hp
+  case cNodes hpc =>
+    intro u hp
+    have hut : u ≠ t := by intro e; subst e; simp at hp
+    simp only [setLoc_loc, if_neg hut, setLoc_versions, setLoc_committed] at hp ⊢
+    rw [List.length_append, List.length_singleton]
+    exact mem_take_succ (h.rver u hp)
+  all_goals
+    intro u
+    have hu0 := h.rver u
+    have ht0 := h.rver t
+    by_cases hu : u = t <;> simp_all
 
 theorem invSer_trans (hL : InvLock s) (h : InvSer c s) (htr : Trans c s t s') : InvSer c s' where
   nodes := nodes_step hL h htr
@@ -288,8 +421,11 @@ theorem invSer_trans (hL : InvLock s) (h : InvSer c s) (htr : Trans c s t s') : 
   snapB := snapB_step hL h htr
   vid := vid_step hL h htr
   role := role_step hL h htr
+  okC := okC_step hL h htr
+  undoF := undoF_step hL h htr
   versions := versions_step hL h htr
+  lastV := lastV_step hL h htr
   vlen := vlen_step hL h htr
-  rver := rver_step h htr
+  rver := rver_step hL h htr
 
 end Model.Writers
